@@ -310,6 +310,7 @@ class Outcome:
         self.components = None
         self.rule = ''
         self.notes = []
+        self.legend = None
 
     def add(self, batch):
         self.batches.append(batch)
@@ -427,6 +428,9 @@ class Outcome:
         )
         if self.components:
             cov['components'] = self.components
+        worlds = sorted({b.label.split('@')[0] for b in self.batches})
+        if self.legend:
+            cov['plan_legend'] = {w: self.legend[w] for w in worlds if w in self.legend}
         cov.update(self.extra)
         ev = dict(property_id=self.prop, tier=self.tier, seed=self.seed, level=self.level, coverage=cov,
                   assumptions=self.assumptions, wall_s=round(wall, 2), violations=violations)
